@@ -1,5 +1,6 @@
 import AdaptixModel.Protocol
 import AdaptixModel.Kinds.Shapes
+import AdaptixModel.Kinds.Convert
 
 /-! JSON ops over the C17 model (`AdaptixModel/Kinds/Shapes.lean`).
 
@@ -9,6 +10,10 @@ import AdaptixModel.Kinds.Shapes
   dump_model      {kind, model, nm, omit, object, leaf}     -> items | access_error
   dump_as_list    {kind, model, object, leaf}               -> list
   link            {src, dst, model}                          -> [[dst id, src id | null]]
+  convert_model   {src_kind, src_model, dst_kind, dst_model, allow, object}
+                  allow: [ids] | "any" | null (default policy: forbid); object: the source object
+                  -> no_converter | call_error | {args, object}: what the destination constructor
+                     receives (`convertModel`) and the object it builds (`objectOf`)
 -/
 
 namespace Adaptix.Ops.C17
@@ -363,6 +368,29 @@ def handle : Protocol.Handler := fun j => do
     match shapeOf ks m, shapeOf kd m with
     | .ok ss, .ok sd =>
       return Json.mkObj [("r", "ok"), ("links", listJ ((link sd.1 ss.2).map fun (d, s) => listJ [Json.str d, optStrJ s]))]
+    | .error u, _ => return encUnsupported u
+    | _, .error u => return encUnsupported u
+  | "convert_model" =>
+    let ks ← decKind (← fieldStr j "src_kind")
+    let kd ← decKind (← fieldStr j "dst_kind")
+    let ms ← decModel (← field j "src_model")
+    let md ← decModel (← field j "dst_model")
+    let allow : String → Bool ← match (← field j "allow") with
+      | .null => pure (fun _ => false)
+      | .str "any" => pure (fun _ => true)
+      | other => do
+        let ids ← (← asArr other).mapM asStr
+        pure (fun id => ids.contains id)
+    let obj ← decPairs (← field j "object")
+    match shapeOf ks ms, shapeOf kd md with
+    | .ok ss, .ok sd =>
+      match convertModel allow (fun _ (v : String) => v) sd.1 ss.2 obj with
+      | .noConverter => return Json.mkObj [("r", "no_converter")]
+      | .callError => return Json.mkObj [("r", "call_error")]
+      | .ok args =>
+        let o := objectOf kd litS callS "null" md args
+        return Json.mkObj [("r", "ok"), ("args", pairsJ args),
+          ("object", listJ (o.map fun (n, v) => listJ [Json.str n, optStrJ v]))]
     | .error u, _ => return encUnsupported u
     | _, .error u => return encUnsupported u
   | _ => throw s!"unknown op {op}"
